@@ -1,14 +1,14 @@
 (* C04 correspondence cases: the input together with what the implementation answered; [check]
    evaluates the model on the same input and compares.  Results of apply are compared in the
    IndexMap's iteration order (so the swap_remove model is exercised too). *)
-From FB Require Export C04.Model C04.Text C04.Hyps Base.Run.
+From FB Require Export C04.Model C04.Text C04.Hyps C04.Hyps2 Base.Run.
 
 Inductive case :=
 | COpt (d : action str) (t : option str) (r : res (option str))   (* quill::apply_diff_option *)
 | CApply (d : mdiffs) (t : mappings) (ns : str) (r : res mappings) (* MappingsDiff::apply_to *)
 | CPair (a b : mappings) (rd : res mdiffs) (ns : str) (rr : option (res mappings)) (hy : list bool)
     (* rd = MappingsDiff::diff a b;  rr = apply_to(read_file(print(diff a b)), a, ns) when it was run;
-       hy = the harness' evaluation of [inverse_hyps_b; f3_class; text_hyps_b; f4_class] on (a, b) *)
+       hy = the harness' evaluation of [inverse_hyps_b; f3_class; text_hyps_b; f4_class; text_hyps_top_b] on (a, b) *)
 | CRead (t : text) (r : res mdiffs)                                (* tiny_v2_diff::read_file *)
 | CPrint (d : mdiffs) (t : text).                                  (* the harness' printer = [print] *)
 
@@ -19,7 +19,7 @@ Definition check (c : case) : bool :=
   | CPair a b rd ns rr hy =>
       let d := diff a b in
       res_eqb mdiffs_eqb d rd
-      && list_eqb Bool.eqb [inverse_hyps_b a b; f3_class a b; text_hyps_b a b; f4_class a b] hy
+      && list_eqb Bool.eqb [inverse_hyps_b a b; f3_class a b; text_hyps_b a b; f4_class a b; text_hyps_top_b a b] hy
       && match rr with
          | None => true
          | Some r => res_eqb mappings_eqb (do d0 <- d; do d' <- read (print d0); apply_to d' a ns) r
